@@ -17,7 +17,8 @@ ASSUMPTIONS = ["SQLite's own atomic commit and the filesystem are trusted; only 
                "sessions use device id 1 and numeric recipient ids, as every caller in the library does",
                "one-time/signed prekeys are stored under fresh ids only (the library never overwrites an id)"]
 REQUIRED = ["sequences", "reopen_checks", "replace_ops", "crash_children", "crash_died_inside", "crash_outcome:old",
-            "crash_outcome:new", "conversation_restarts", "crash_kind:sql", "crash_kind:commit", "crash_kind:line"]
+            "crash_outcome:new", "conversation_restarts", "crash_kind:sql", "crash_kind:commit", "crash_kind:line",
+            "manager_sequences", "manager_kill_snapshots", "manager_prekeys_generated"]
 TIMEOUT = {"quick": 900, "thorough": 7200}
 
 
@@ -509,6 +510,74 @@ def crash_case(acc, seed, tag, mat, opkind, prefix_len, lines=True):
 
 
 # ---------------------------------------------------------------------------------------------
+def manager_case(acc, seed, tag, nops, mat):
+    """Operations through AxolotlManager (the API the layers use). After every call has returned, the database files are
+    copied as a kill at that instant would leave them (no close, no further commit) and the copy is reopened: it must show
+    exactly what the live manager shows, i.e. nothing a returned call stored may still sit in an open transaction."""
+    from yowsup.axolotl.manager import AxolotlManager
+    from yowsup.axolotl.store.sqlite.liteaxolotlstore import LiteAxolotlStore
+    r = gen.rng(seed, ID, tag)
+    path = dbpath("mgr")
+    snap = dbpath("mgrsnap")
+    old_count = AxolotlManager.COUNT_GEN_PREKEYS
+    AxolotlManager.COUNT_GEN_PREKEYS = r.choice([1, 3, 7, 12, 30, 101, 130, 205])
+    store = LiteAxolotlStore(path)
+    m = AxolotlManager(store, "4911" + gen.s_from(r, gen.DIGITS, 7))
+    ops = []
+    w = {"kind": "manager", "tag": tag, "count_gen": AxolotlManager.COUNT_GEN_PREKEYS, "ops": ops}
+    made = []
+    try:
+        for i in range(nops):
+            op = r.choice(["level", "level-force", "signed", "mark-sent", "mark-sent", "load-unsent", "load-latest-signed"])
+            ops.append(op)
+            acc.count("mgr_op:" + op)
+            try:
+                if op == "level":
+                    made.extend(m.level_prekeys())
+                elif op == "level-force":
+                    made.extend(m.level_prekeys(force=True))
+                elif op == "signed":
+                    m.generate_signed_prekey()
+                elif op == "mark-sent":
+                    un = m.load_unsent_prekeys()
+                    if un:
+                        k = r.randint(1, len(un))
+                        m.set_prekeys_as_sent(un[:k])
+                elif op == "load-unsent":
+                    m.load_unsent_prekeys()
+                else:
+                    m.load_latest_signed_prekey(generate=r.random() < 0.5)
+            except Exception as e:  # noqa
+                acc.violation("manager-op-raises:%s:%s" % (op, type(e).__name__), "%s raised %r" % (op, e), w)
+                return
+            live = read_store(store, mat)
+            # what a kill right now leaves on disk
+            for sfx in ("", "-journal", "-wal", "-shm"):
+                if os.path.exists(snap + sfx):
+                    os.remove(snap + sfx)
+                if os.path.exists(path + sfx):
+                    shutil.copyfile(path + sfx, snap + sfx)
+            acc.count("manager_kill_snapshots")
+            try:
+                s2 = open_store(snap)
+                got = read_store(s2, mat)
+                close_store(s2)
+            except Exception as e:  # noqa
+                acc.violation("manager-reopen-raises:%s" % type(e).__name__, "the store cannot be reopened after a kill following %s: %r" % (op, e), w)
+                return
+            d = model_diff(live, got)
+            if d:
+                acc.violation("manager-not-durable-at-return:%s:%s" % (op, d.split("[")[0]), "after %s had returned, a kill loses what it stored: %s" % (op, d), dict(w, at=i))
+                return
+        acc.count("manager_sequences")
+        acc.count("manager_prekeys_generated", len(made))
+        acc.case(["mgr", AxolotlManager.COUNT_GEN_PREKEYS, ops], nontrivial=len(made) > 0)
+    finally:
+        AxolotlManager.COUNT_GEN_PREKEYS = old_count
+        close_store(store)
+
+
+# ---------------------------------------------------------------------------------------------
 def conversation_case(acc, seed, tag, nsteps):
     """Two managers on file stores exchange messages; either side is restarted (new store + manager objects) at random."""
     from yowsup.axolotl.manager import AxolotlManager
@@ -585,6 +654,7 @@ def shards(tier, seed, nworkers):
         specs.append({"kind": "sequences", "shard": i, "n": (600 if q else 30000) // nsh})
         specs.append({"kind": "crash", "shard": i, "n": (96 if q else 3200) // nsh})
         specs.append({"kind": "conversation", "shard": i, "n": (120 if q else 6000) // nsh})
+        specs.append({"kind": "manager", "shard": i, "n": (40 if q else 1600) // nsh})
     return specs
 
 
@@ -606,6 +676,10 @@ def run(spec, acc):
             kind = CRASH_OPS[(i + sh) % len(CRASH_OPS)]
             crash_case(acc, seed, tag, mat, kind, prefix_len=[0, 3, 8, 15][i % 4], lines=(i % 3 != 2))
         acc.sample({"crash": "kill at every SQL statement/commit/line boundary of the last op", "ops": CRASH_OPS})
+    elif spec["kind"] == "manager":
+        for i in range(spec["n"]):
+            manager_case(acc, seed, "mgr/%d/%d" % (sh, i), 3 + (i % 10), mat)
+        acc.sample({"manager": "level_prekeys / generate_signed_prekey / set_prekeys_as_sent through AxolotlManager; database files copied after every returned call and reopened"})
     else:
         for i in range(spec["n"]):
             conversation_case(acc, seed, "conv/%d/%d" % (sh, i), 6 + (i % 20))
